@@ -18,12 +18,15 @@ Local Open Scope N_scope.
 Definition path := N.
 
 Inductive node :=
-| File (readable : bool) (ino : N)
-| Dir (ino : N).
+| File (readable : bool) (ino : N)   (* regular file *)
+| Other (isdir : bool) (ino : N).    (* directory, or an entry that is neither (socket, device) *)
+Notation Dir i := (Other true i).
+Notation Sock i := (Other false i).
 
 Inductive op :=
 | Create (p : path)              (* O_CREATE|O_EXCL *)
 | Mkdir (p : path)
+| Mksock (p : path)              (* mknod S_IFSOCK: exists, is no directory, cannot be streamed *)
 | Delete (p : path)              (* os.Remove: unlink / rmdir (directories are empty) *)
 | Rename (p q : path)            (* os.Rename *)
 | Chmod (p : path) (r : bool)    (* regular files only *)
@@ -87,8 +90,10 @@ Definition rename_ok (s : state) (p q : path) : bool :=
   negb (N.eqb p q) && in_U q &&
   match tree s p, tree s q with
   | Some _, None => true
-  | Some (File _ _), Some (File _ _) => true
-  | _, _ => false       (* os.Rename refuses a directory target; a directory cannot replace a file *)
+  | Some (Dir _), Some _ => false      (* a directory cannot replace anything *)
+  | Some _, Some (Dir _) => false      (* os.Rename refuses a directory target *)
+  | Some _, Some _ => true             (* file or socket replaces file or socket *)
+  | None, _ => false
   end.
 
 Definition fs_step (s : state) (o : op) : state :=
@@ -101,6 +106,8 @@ Definition fs_step (s : state) (o : op) : state :=
       else s
   | Mkdir p =>
       if in_U p && negb (is_some (tree s p)) then set_tree s (upd (tree s) p (Some (Dir fresh))) else s
+  | Mksock p =>
+      if in_U p && negb (is_some (tree s p)) then set_tree s (upd (tree s) p (Some (Sock fresh))) else s
   | Delete p => set_tree s (upd (tree s) p None)
   | Rename p q =>
       if rename_ok s p q then set_tree s (upd (upd (tree s) q (tree s p)) p None) else s
@@ -135,7 +142,7 @@ Definition tail_path (check : bool) (s : state) (p : path) : state :=
 (* Tailer.Ignore: stat fails, directory, or the base name matches *)
 Definition ignored (s : state) (p : path) : bool :=
   match tree s p with
-  | Some (File _ _) => ignore_match p
+  | Some (File _ _) | Some (Sock _) => ignore_match p
   | _ => true
   end.
 
@@ -146,6 +153,18 @@ Definition glob_one (check : bool) (s : state) (pat : N) : state :=
                then tail_path check s p else s) U s.
 
 Definition poll (check : bool) (s : state) : state := fold_left (glob_one check) pats s.
+
+(* a variant used only to show what completeness rests on: doPatternGlob gives
+   up at the first match it cannot start a stream on, instead of logging the
+   error and going on with the next match *)
+Definition tail_path_fails (s : state) (p : path) : bool :=
+  negb (is_some (reg s p)) && match tree s p with Some (File true _) => false | _ => true end.
+Definition glob_one_stop (s : state) (pat : N) : state :=
+  fst (fold_left (fun (a : state * bool) p =>
+                    let (s, go) := a in
+                    if go && is_some (tree s p) && glob_match pat p && negb (ignored s p)
+                    then (tail_path true s p, negb (tail_path_fails s p)) else a) U (s, true)).
+Definition poll_stop (s : state) : state := fold_left glob_one_stop pats s.
 
 (* ---- one stream, one wake-up (filestream.go) ---- *)
 
@@ -163,7 +182,7 @@ Definition round (repaired : bool) (s : state) (st : stream) : outcome * list fw
            then (Stay (mkStream (s_id st) (s_path st) j (len s j)),       (* reopened, from the start *)
                  got ++ recs (s_path st) (s_id st) j 0 (N.to_nat (len s j)))
            else (if repaired then Close else Leak, got)
-  | Some (Dir _) => (if repaired then Close else Leak, got)
+  | Some (Other _ _) => (if repaired then Close else Leak, got)   (* not a regular file any more *)
   end.
 
 Definition kept (repaired : bool) (s : state) (sts : list stream) : list stream :=
